@@ -12,9 +12,11 @@ A case:
   {'kind': 'multi', 'fn_max': n, 'server': {'cls': 'CourierServer' | 'PrefetchedCourierServer', 'opts': {...}},
    'clients': [{opt: value}, ...], 'ops': [op, ...]}
 ops (every op carries 'c' = index of the client that sends it; 'via' = how a handle obtained by ANOTHER client is
-re-bound to client c: RemoteObject.new(handle.value, worker=<client | its ClientConfig>)):
+re-bound to client c: RemoteObject.new(handle.value, worker=<client | its ClientConfig | the address string>)):
   the ops of harness/lib_c14_hist.py on the stateful classes:  mk / get / getf / iter / next
   {'op': 'gen', 'items': [v], 'fin': {'stop': [v]} | {'fail': {kind, msg}}}   a generator with a chosen end, by handle
+                                 ('new': 'client' | 'config' | 'str': handed out by RemoteIterator.new(generator, server_addr=..)
+                                 instead of a lazy_result_ call)
   {'op': 'giter', 'h': k}        iter(remote_generator) -> RemoteIterator (a second handle to the same generator)
   {'op': 'gnext', 'h': k}        next(remote_iterator)
   {'op': 'clear'}                client.clear_cache()       (courier method `clear_cache`)
@@ -105,6 +107,8 @@ def option_arms(sig, case):
   for op in case['ops']:
     if 'via' in op:
       out.append('RemoteObject.new.worker ' + op['via'])
+    if 'new' in op:
+      out.append('RemoteIterator.new.server_addr ' + op['new'])
   return out
 
 
@@ -115,7 +119,9 @@ def need_arms(sig):
       out.append(f'{t}.{k} default')
       if non_defaults(k, d):
         out.append(f'{t}.{k} non-default')
-  return out + ['RemoteObject.new.worker client', 'RemoteObject.new.worker config']
+  return out + ['RemoteObject.new.worker client', 'RemoteObject.new.worker config', 'RemoteObject.new.worker str',
+                'RemoteIterator.new.server_addr client', 'RemoteIterator.new.server_addr config',
+                'RemoteIterator.new.server_addr str']
 
 
 # ----------------------------------------------------------------------------- generation
@@ -136,10 +142,16 @@ def gen_multi_case(rng, sig, n_ops=None, force=None):
   clients = [sample_opts(rng, sig, 'CourierClient') for _ in range(n_clients)]
   for o in clients:
     o['heartbeat_threshold_secs'] = rng.choice([HB, 500.0]) if rng.random() < 0.7 else o['heartbeat_threshold_secs']
-  cls = rng.choice(['CourierServer', 'PrefetchedCourierServer'])
-  server = {'cls': cls, 'opts': sample_opts(rng, sig, cls)}
+  if rng.random() < 0.35:
+    clients[0] = dict(options(sig, 'CourierClient'))      # all defaults: the client an address string stands for
   if force:
     clients[-1]['iterate_batch_size'] = force['batch']
+  plain = [i for i, o in enumerate(clients) if o == options(sig, 'CourierClient')]
+
+  def how(c):
+    return rng.choice(['client', 'config'] + (['str', 'str'] if c in plain else []))
+  cls = rng.choice(['CourierServer', 'PrefetchedCourierServer'])
+  server = {'cls': cls, 'opts': sample_opts(rng, sig, cls)}
   ops, kinds, owner = [], [], []
 
   def add(op, kind=None):
@@ -155,7 +167,9 @@ def gen_multi_case(rng, sig, n_ops=None, force=None):
     c = owner[h]
     if n_clients > 1 and rng.random() < 0.3:
       c2 = rng.choice([i for i in range(n_clients) if i != c])
-      return c2, {'via': rng.choice(['client', 'config'])}
+      return c2, {'via': how(c2)}
+    if c in plain and rng.random() < 0.3:
+      return c, {'via': 'str'}
     return c, {}
 
   n_ops = n_ops or rng.randrange(6, 18)
@@ -190,7 +204,10 @@ def gen_multi_case(rng, sig, n_ops=None, force=None):
       add({'c': c, 'op': 'mk', 'cls': k, 'args': hist._mk_args(rng, k)}, k)
     elif r < 0.15:
       n = rng.randrange(0, 7)
-      add({'c': c, 'op': 'gen', 'items': [{'i': rng.randrange(0, 50)} for _ in range(n)], 'fin': _gen_fin(rng)}, 'gen')
+      op = {'c': c, 'op': 'gen', 'items': [{'i': rng.randrange(0, 50)} for _ in range(n)], 'fin': _gen_fin(rng)}
+      if rng.random() < 0.4 and not shut:
+        op['new'] = how(c)
+      add(op, 'gen')
     elif r < 0.21 and gens:
       h = rng.choice(gens)
       cc, via = client_for(h)
@@ -275,6 +292,16 @@ def fixed_multi_cases(sig):
          {'c': 0, 'op': 'shutdown', 'how': 'client'},
          {'c': 1, 'op': 'get', 'h': 0, 'links': [hist.L_attr('total')], 'lazy': False}]
   out.append({'kind': 'multi', 'fn_max': 128, 'server': srv, 'clients': [dflt, batch4], 'ops': ops})
+  boom = {'fail': {'kind': 'KeyError', 'msg': 'gone'}}
+  ops = [{'c': 1, 'op': 'mk', 'cls': 'Counter', 'args': [{'i': 3}]},
+         {'c': 2, 'op': 'get', 'h': 0, 'links': add1, 'lazy': False, 'via': 'str'},
+         {'c': 2, 'op': 'gen', 'items': six[:3], 'fin': boom, 'new': 'str'},
+         {'c': 1, 'op': 'gen', 'items': six[:5], 'fin': {'stop': [{'i': 9}]}, 'new': 'config'},
+         {'c': 0, 'op': 'gen', 'items': six[:1], 'fin': {'stop': []}, 'new': 'client'},
+         {'c': 0, 'op': 'clear'}]
+  ops += [{'c': 2, 'op': 'gnext', 'h': 2} for _ in range(5)] + [{'c': 1, 'op': 'gnext', 'h': 3} for _ in range(7)]
+  ops += [{'c': 1, 'op': 'gnext', 'h': 4, 'via': 'client'} for _ in range(3)]
+  out.append({'kind': 'multi', 'fn_max': 128, 'server': srv, 'clients': [dflt, batch4, dict(d)], 'ops': ops})
   return out
 
 
@@ -310,11 +337,14 @@ def run_remote(case, rem, clients, E, err_kind):
   lf, cu, fc = E['lf'], E['cu'], E['fc']
   results, obs = [], []
 
+  def worker_of(c, how):
+    return clients[c] if how == 'client' else clients[c].configs if how == 'config' else rem.name
+
   def bound(h, op):
     """handle h as client op['c'] uses it"""
     if 'via' not in op:
       return h
-    w = clients[op['c']] if op['via'] == 'client' else clients[op['c']].configs
+    w = worker_of(op['c'], op['via'])
     if isinstance(h, cu.RemoteIterator):
       return cu.RemoteIterator(cu.RemoteObject.new(h.iterator.value, worker=w))
     return cu.RemoteObject.new(h.value, worker=w)
@@ -329,7 +359,12 @@ def run_remote(case, rem, clients, E, err_kind):
     elif k == 'gen':
       stop, fail = (None, (op['fin']['fail']['kind'], op['fin']['fail']['msg'], 0)) if 'fail' in op['fin'] else \
           ([S.pv(v) for v in op['fin']['stop']], None)
-      thunk = lambda: cl.get_result(lf.trace(lib14.gen)([S.pv(v) for v in op['items']], stop, fail, lazy_result_=True))
+      if 'new' in op:
+        # the server-side way of handing out an iterator (the in-process fake shares the object table with the server)
+        thunk = lambda: cu.RemoteIterator.new(lib14.gen([S.pv(v) for v in op['items']], stop, fail),
+                                              server_addr=worker_of(op['c'], op['new']))
+      else:
+        thunk = lambda: cl.get_result(lf.trace(lib14.gen)([S.pv(v) for v in op['items']], stop, fail, lazy_result_=True))
     elif k == 'clear':
       thunk = lambda: cl.clear_cache().result(timeout=30)
     elif k == 'info':
@@ -397,7 +432,10 @@ def run_lazy_local(case, E, err_kind):
     elif k == 'gen':
       stop, fail = (None, (op['fin']['fail']['kind'], op['fin']['fail']['msg'], 0)) if 'fail' in op['fin'] else \
           ([S.pv(v) for v in op['fin']['stop']], None)
-      thunk = lambda: lf.maybe_make(lf.trace(lib14.gen)([S.pv(v) for v in op['items']], stop, fail, lazy_result_=True))
+      if 'new' in op:
+        thunk = lambda: lf.LazyObject.new(iter(lib14.gen([S.pv(v) for v in op['items']], stop, fail)))
+      else:
+        thunk = lambda: lf.maybe_make(lf.trace(lib14.gen)([S.pv(v) for v in op['items']], stop, fail, lazy_result_=True))
     elif k == 'clear':
       lf.clear_cache()
       ob = {'none': True}
